@@ -146,7 +146,7 @@ func (t *Term) IsFalse() bool { return t.op == OConst && t.sort.K == SBool && t.
 func (t *Term) Uint64() uint64 { return new(big.Int).And(t.c, mask(64)).Uint64() }
 
 type TermTable struct {
-	tab    map[string]*Term
+	tab    map[termKey]*Term
 	nextID int
 	tru    *Term
 	fls    *Term
@@ -160,7 +160,7 @@ type ufSig struct {
 }
 
 func NewTermTable() *TermTable {
-	tt := &TermTable{tab: map[string]*Term{}, Vars: map[string]*Term{}, UFs: map[string]ufSig{}}
+	tt := &TermTable{tab: map[termKey]*Term{}, Vars: map[string]*Term{}, UFs: map[string]ufSig{}}
 	tt.tru = tt.mk(&Term{op: OConst, sort: BoolSort, c: big.NewInt(1)})
 	tt.fls = tt.mk(&Term{op: OConst, sort: BoolSort, c: big.NewInt(0)})
 	return tt
@@ -194,22 +194,50 @@ func toSigned(w int, x *big.Int) *big.Int {
 	return x
 }
 
-func (tt *TermTable) key(t *Term) string {
-	var sb strings.Builder
-	fmt.Fprintf(&sb, "%d|%d.%d|", t.op, t.sort.K, t.sort.W)
+type termKey struct {
+	op         Op
+	k          SortKind
+	w          int32
+	i1, i2     int32
+	n          int32
+	a0, a1, a2 int32
+	c0         uint64
+	s          string
+}
+
+func (tt *TermTable) key(t *Term) termKey {
+	k := termKey{op: t.op, k: t.sort.K, w: int32(t.sort.W), i1: int32(t.i1), i2: int32(t.i2), n: int32(len(t.args)), a0: -1, a1: -1, a2: -1}
+	s := t.name
 	if t.sort.K == SUn {
-		sb.WriteString(t.sort.Name)
+		s += "\x00" + t.sort.Name
 	}
 	if t.c != nil {
-		sb.WriteString(t.c.Text(16))
+		if t.c.IsUint64() {
+			k.c0 = t.c.Uint64()
+			k.n |= 1 << 20
+		} else {
+			s += "\x01" + t.c.Text(62)
+		}
 	}
-	sb.WriteByte('|')
-	sb.WriteString(t.name)
-	fmt.Fprintf(&sb, "|%d,%d", t.i1, t.i2)
-	for _, a := range t.args {
-		fmt.Fprintf(&sb, ",%d", a.id)
+	switch len(t.args) {
+	case 0:
+	case 1:
+		k.a0 = int32(t.args[0].id)
+	case 2:
+		k.a0, k.a1 = int32(t.args[0].id), int32(t.args[1].id)
+	case 3:
+		k.a0, k.a1, k.a2 = int32(t.args[0].id), int32(t.args[1].id), int32(t.args[2].id)
+	default:
+		b := make([]byte, 0, 4*len(t.args)+len(s)+1)
+		b = append(b, s...)
+		b = append(b, 2)
+		for _, a := range t.args {
+			b = append(b, byte(a.id), byte(a.id>>8), byte(a.id>>16), byte(a.id>>24))
+		}
+		s = string(b)
 	}
-	return sb.String()
+	k.s = s
+	return k
 }
 
 func (tt *TermTable) mk(t *Term) *Term {
